@@ -6,7 +6,7 @@ import time
 
 HERE = os.path.dirname(os.path.dirname(os.path.abspath(__file__)))
 
-QUICK_RUNS = {"C09": 1024, "C11": 1024, "C10": 256}
+QUICK_RUNS = {"C09": 1024, "C11": 1024, "C10": 320}
 THOROUGH_BUDGET_S = 1800
 
 LEVEL_RULE = {
